@@ -971,6 +971,13 @@ func (c *Ctx) loadTerm(v *ssa.UnOp) *Term {
 			}
 		}
 	}
+	// a parameter spilled into a cell because a function literal captures it: when the cell is written once, at
+	// the function's entry, and no literal that captures it writes it, every load is the parameter
+	if a, ok := v.X.(*ssa.Alloc); ok {
+		if pv := spilledParam(a); pv != nil {
+			return c.term(pv)
+		}
+	}
 	addr := c.term(v.X)
 	if root := allocRoot(v.X); root != nil && !c.detached {
 		if st := c.lastStore(v, addr.String(), root); st != nil {
@@ -1009,6 +1016,52 @@ func (c *Ctx) loadTerm(v *ssa.UnOp) *Term {
 		}
 	}
 	return mk("load", "", v, addr)
+}
+
+var spilledCache = map[*ssa.Alloc]ssa.Value{}
+
+// spilledParam returns the parameter whose value the cell a holds for the whole life of the activation, or nil.
+func spilledParam(a *ssa.Alloc) ssa.Value {
+	if v, ok := spilledCache[a]; ok {
+		return v
+	}
+	spilledCache[a] = nil
+	fn := a.Parent()
+	if fn == nil || len(fn.Blocks) == 0 || a.Block() != fn.Blocks[0] {
+		return nil
+	}
+	var val ssa.Value
+	for _, r := range *a.Referrers() {
+		switch t := r.(type) {
+		case *ssa.Store:
+			if t.Addr != ssa.Value(a) || val != nil || t.Block() != fn.Blocks[0] {
+				return nil
+			}
+			p, isParam := t.Val.(*ssa.Parameter)
+			if !isParam {
+				return nil
+			}
+			val = p
+		case *ssa.UnOp:
+		case *ssa.DebugRef:
+		case *ssa.MakeClosure:
+			cf, _ := t.Fn.(*ssa.Function)
+			if cf == nil {
+				return nil
+			}
+			for i, b := range t.Bindings {
+				if b == ssa.Value(a) && (i >= len(cf.FreeVars) || mayWriteThrough(cf, cf.FreeVars[i], 0)) {
+					return nil
+				}
+			}
+		default:
+			return nil
+		}
+	}
+	if val != nil {
+		spilledCache[a] = val
+	}
+	return val
 }
 
 // SpliceWritingClosures also splices function literals that write the variables they capture (their stores are on
@@ -2360,6 +2413,28 @@ func (l *Loop) HeaderPhis() []*ssa.Phi {
 			out = append(out, phi)
 		}
 	}
+	return out
+}
+
+// LastStore returns the last value stored on the path into the variable a - by the function itself, or by a
+// spliced callee / function literal that reaches it through a pointer or a capture; nil when the path does not
+// store into it. A variable that a loop carries in memory (because a function literal captures it) is read at
+// the start of an iteration as "*alloc(..)"; LastStore on a latch path is then what LatchValue is for a phi.
+func (p *Path) LastStore(a *ssa.Alloc) *Term {
+	var out *Term
+	p.InstrsIn(func(in ssa.Instruction, c *Ctx) {
+		st, ok := in.(*ssa.Store)
+		if !ok {
+			return
+		}
+		if st.Addr != ssa.Value(a) {
+			at := c.term(st.Addr)
+			if at == nil || at.Op != "alloc" || at.Val != ssa.Value(a) {
+				return
+			}
+		}
+		out = c.term(st.Val)
+	})
 	return out
 }
 
